@@ -276,6 +276,15 @@ def check_verdicts(b, family, values, df, col, w, eps_list=(0, 0.25, 0.5), tz=Fa
                 if ok:
                     b.check('C02.verify_no_duplicates.verdict',
                             bool(got) == bool(SPEC['spec_no_duplicates'](col, v)), w2, 'verifier %r' % (got,))
+            # a null-valued rex constraint is satisfied whatever the field's type (like every null-valued constraint)
+            if col.ttype != 'string':
+                w2 = dict(w, kind='rex', value=None)
+                b.case(('verdict', family, values, 'rex', 'None'))
+                with quiet():
+                    ok, got = b.guarded('C02.verify_rex.noraise',
+                                        lambda: ver.verify_rex_constraint('c', base.RexConstraint(None)), w2)
+                if ok:
+                    b.check('C02.verify_rex.verdict', bool(got) is True, w2, 'verifier %r for a null-valued constraint' % (got,))
             # allowed values on numeric and date fields: the non-null values must be among them
             if col.ttype in ('int', 'real', 'date') and family not in ('float64x',):
                 present = sorted(set(col.nonnull))
@@ -411,6 +420,16 @@ def check_totals(b, seed):
                             else:
                                 okr = okr and bool(cell) == bool(sat)
                     b.check('C02.tabular-form-equals-verdicts', okr, w, fr.to_string()[:300])
+                    # every row, read on its own: its true cells are its passes and its false cells its failures
+                    # (a kind the field has no constraint of shows no verdict)
+                    kinds_cols = [c for c in fr.columns if c not in ('field', 'failures', 'passes')]
+                    okc = True
+                    for f in verdicts:
+                        cells = [rows[f][c] for c in kinds_cols]
+                        nt = sum(1 for x in cells if x is True or (isinstance(x, (bool, np.bool_)) and bool(x)))
+                        nf_ = sum(1 for x in cells if x is False or (isinstance(x, (bool, np.bool_)) and not bool(x)))
+                        okc = okc and nt == v.fields[f].passes and nf_ == v.fields[f].failures
+                    b.check('C02.tabular-form-equals-verdicts', okc, w, fr.to_string()[:400])
                 # text form
                 txt = str(v)
                 b.check('C02.text-form-totals', ('Constraints passing: %d' % tp) in txt and ('Constraints failing: %d' % tf) in txt, w, txt[-120:])
